@@ -27,7 +27,7 @@ CheckCtor(e) ==
     /\ V("C14", e, Len(e.dist) = 0 \/ \A r \in 1..Len(e.dist) :
             LET dv == e.dist[r]
                 raw == p.b[r] * c.dist_den - Dot(p.m[r], c.dist_at)                  \* (b - a.x) scaled by q * den
-            IN IF IsZero(p.m[r]) THEN TRUE
+            IN IF IsZero(p.m[r]) THEN (raw = 0 \/ dv.k = (IF raw > 0 THEN "inf" ELSE "-inf"))     \* all points inside: +inf, no point inside: -inf (0/0 excluded)
                ELSE /\ ((dv.k = "num" /\ Sign(dv.v) = Sign(raw)) \/ (raw = 0 /\ Abs(dv.v) <= 1))
                     /\ (\A n2 \in 1..20 : Dot(p.m[r], p.m[r]) = n2 * n2 => Abs(dv.v * n2 * p.q * c.dist_den - raw * WQ) <= n2 * p.q * c.dist_den),
          "distance() has the wrong sign or magnitude for a non-zero row", "distance/" \o nm)
